@@ -452,6 +452,16 @@ func init() {
 
 func init() {
 	monitors["C11"] = func(r *rng, scale int, m *monOut, tmp string) {
+		// what one check leaves behind in the package (generators cached by Make) does not change what a later check
+		// of another type of the same name draws — or whether it crashes
+		for i := 0; i < 4*scale; i++ {
+			ws := r.words(8)
+			m.tag("make-same-name-across-checks")
+			m.eval("make-names|"+joinU64(ws), true)
+			if what := c04MakeNames(ws); what != "" {
+				m.violate(violation{"C11", "make-names", what, map[string]string{"words": joinU64(ws)}})
+			}
+		}
 		// behaviour chosen by the drawn value: 0 pass, 1 errorf, 2 skip, 3 errorf+skip, 4 cleanup-time errorf,
 		// 5 cleanup-time errorf + skip, 6 pass, 7 a cleanup that skips, 8/9 a cleanup that skips while an older one
 		// (which signals / does not signal) is still pending … most cases pass or skip, rarely one signals
@@ -807,6 +817,35 @@ func init() {
 				m.eval(src+fmt.Sprint(bs), signalled)
 				if signalled && !strings.HasPrefix(out, "fail") {
 					m.violate(violation{"C13", "fuzz", fmt.Sprintf("a recorded failure followed by a deferred skip/overrun gave %q, want fail", out), map[string]string{"prog": src, "bytes": fmt.Sprint(bs)}})
+				}
+			}
+		}
+		// every way to falsify a property gives "fail" on the input that reaches it, and "pass" on the input that does not:
+		// Fatal/FailNow/Error/Fail, a panic with a string, with an error, with a runtime error, with a number
+		for _, kind := range append(append([]string(nil), c02Kinds...), "(panicv 7 a)") {
+			src := fmt.Sprintf("((draw a (u 0 255)) (if (ge a 128) %s))", kind)
+			for _, tc := range []struct {
+				bs   []byte
+				want string
+			}{{[]byte{255, 255, 255, 255, 255, 255, 255, 255, 200, 0, 0, 0, 0, 0, 0, 0}, "fail"}, {[]byte{0, 0, 0, 0, 0, 0, 0x70, 0, 200, 0, 0, 0, 0, 0, 0, 0}, "fail"},
+				{[]byte{0, 0, 0, 0, 0, 0, 0, 0, 200, 0, 0, 0, 0, 0, 0, 0}, "fail"}, {[]byte{0, 0, 0, 0, 0, 0, 0, 0, 5, 0, 0, 0, 0, 0, 0, 0}, "pass"}, {[]byte{0, 0, 0, 0}, "skip"}} {
+				out, fin := fuzzOutcome(mustSX(src), tc.bs)
+				drew := ""
+				if len(fin.invs) > 0 {
+					drew = strings.Join(fin.invs[0].vals, ",")
+				}
+				// (the bias word decides how many bits the value word contributes: what counts is what was drawn)
+				want := tc.want
+				if tc.want != "skip" && len(fin.invs) > 0 && len(fin.invs[0].vals) == 1 {
+					if v, err := strconv.Atoi(fin.invs[0].vals[0]); err == nil {
+						want = map[bool]string{true: "fail", false: "pass"}[v >= 128]
+					}
+				}
+				m.tag("falsifying-kinds")
+				m.eval(src+fmt.Sprint(tc.bs), true)
+				m.tag("falsifying-kinds-want-" + want)
+				if !strings.HasPrefix(out, want) {
+					m.violate(violation{"C13", "fuzz", fmt.Sprintf("the input drew a = %s: outcome %q, want %s", drew, out, want), map[string]string{"prog": src, "bytes": fmt.Sprint(tc.bs)}})
 				}
 			}
 		}
